@@ -34,6 +34,9 @@ macro_rules! tr {
         }
     };
 }
+/// bumped by every step / wait-loop iteration of the main actor: lets the process watchdog tell "main is waiting
+/// for something, actively" from "main is wedged" (e.g. on a channel lock that is never released again)
+pub static MAIN_BEAT: std::sync::atomic::AtomicU64 = std::sync::atomic::AtomicU64::new(0);
 pub const MAIN_ROLE: u32 = 20;
 pub const MAIN_SLOT: usize = 40;
 /// "never" for timed waiters that are expected to be completed by a peer
@@ -173,6 +176,7 @@ impl<T: Payload> Scn<T> {
     }
 
     fn pause(n: &mut u32) {
+        MAIN_BEAT.fetch_add(1, std::sync::atomic::Ordering::Relaxed);
         *n += 1;
         if *n < 100 || cfg!(miri) {
             std::thread::yield_now();
@@ -310,6 +314,7 @@ impl<T: Payload> Scn<T> {
     /// Joins everything, drops every handle (workers' first, then main's), and
     /// judges the complete history.
     pub fn mexec(&mut self, op: Op) {
+        MAIN_BEAT.fetch_add(1, std::sync::atomic::Ordering::Relaxed);
         tr!("main exec {:?}", op);
         self.main.exec(op);
         tr!("main done {:?}", self.main.log.last().map(|e| e.res.clone()));
